@@ -51,3 +51,15 @@ def wfS : Sel → Bool
 end
 
 end Qryn.Sql
+
+namespace Qryn.Sql
+/-- parenthesis depth after one more byte; `none` = a `)` without its `(` -/
+def parenStep (st : Option Nat) (c : UInt8) : Option Nat :=
+  match st with
+  | none => none
+  | some d => if c = 40 then some (d + 1) else if c = 41 then (if d = 0 then none else some (d - 1)) else some d
+
+/-- the bytes have balanced parentheses (counted on the raw bytes: meaningful when no string literal
+    contains a parenthesis) -/
+def balancedB (bs : Bytes) : Bool := bs.foldl parenStep (some 0) == some 0
+end Qryn.Sql
